@@ -104,6 +104,7 @@ type scenario struct {
 	Named    bool
 	Caller   bool
 	Sev      slog.Level
+	How      int  // how the logger gets its format: 0 Set...Mode, 1 option of the package-level New, 2 option of New on a parent in another format, 3 With...Mode method
 	Thru     bool // WriteThru with an explicit timestamp, else LogAttrs
 	Msg      string
 	Attrs    []vlib.ExpAttr
@@ -141,13 +142,28 @@ func run(t vlib.TB, test string, sc scenario, attrsForThru slog.Attrs) {
 	w := vlib.NewRec(log, 1, 0)
 	name := ""
 	var lg slog.Logger
-	if sc.Named {
+	switch {
+	case sc.How == 1 && sc.Named:
 		name = "svc-lf"
-		lg = slog.New(name)
-	} else {
-		lg = slog.New()
+		lg = slog.New(name, slog.WithColorMode(false)) // option form
+	case sc.How == 2:
+		parent := slog.New("parent-in-another-format")
+		parent.SetJSONMode(true)
+		lg = parent.New("svc-lf-kid", slog.WithColorMode(false)) // option form on a child whose parent has another format
+		name = "svc-lf-kid"
+	case sc.How == 3:
+		parent := slog.New("parent")
+		lg = parent.WithColorMode(false) // method form: a new anonymous child
+		name = lg.Name()
+	default:
+		if sc.Named {
+			name = "svc-lf"
+			lg = slog.New(name)
+		} else {
+			lg = slog.New()
+		}
+		lg.SetColorMode(false)
 	}
-	lg.SetColorMode(false)
 	lg.SetWriter(w)
 	lg.SetErrorWriter(w)
 	lg.SetLevel(slog.AlwaysLevel)
@@ -205,7 +221,7 @@ func run(t vlib.TB, test string, sc scenario, attrsForThru slog.Attrs) {
 	if nt {
 		key = vlib.JoinSorted(set)
 	}
-	labels := []string{fmt.Sprintf("production=%v", vlib.ProductionMode()), fmt.Sprintf("caller=%v", sc.Caller), fmt.Sprintf("named=%v", sc.Named), fmt.Sprintf("writethru=%v", sc.Thru)}
+	labels := []string{fmt.Sprintf("format-set-how=%d", sc.How), fmt.Sprintf("production=%v", vlib.ProductionMode()), fmt.Sprintf("caller=%v", sc.Caller), fmt.Sprintf("named=%v", sc.Named), fmt.Sprintf("writethru=%v", sc.Thru)}
 	for c := range set {
 		labels = append(labels, c)
 	}
@@ -225,6 +241,7 @@ func genScenario(t *rapid.T) (scenario, slog.Attrs) {
 	sevs := append(append([]slog.Level{}, vlib.Builtins...), custReg, custRaw)
 	sc.Sev = rapid.SampledFrom(sevs).Filter(func(l slog.Level) bool { return l != slog.OffLevel }).Draw(t, "severity")
 	sc.Thru = rapid.Bool().Draw(t, "writeThru")
+	sc.How = rapid.SampledFrom([]int{0, 0, 1, 2, 3}).Draw(t, "howFormatIsSet")
 	sc.Msg = vlib.GenMsg().Draw(t, "msg")
 	if sc.Sev == slog.AlwaysLevel && strings.Trim(sc.Msg, " \t\r\n") == "" {
 		sc.Msg += "x" // a blank Print is delivered as a bare newline (property C02), not as a record
